@@ -621,6 +621,19 @@ def _const_truth(e: ast.AST) -> Optional[bool]:
         nm = e.func.attr if isinstance(e.func, ast.Attribute) else getattr(e.func, "id", "")
         if nm.endswith(("Error", "Exception")):
             return True
+    # `A or B` with one operand known true, `A and B` with one operand known false (or every operand known)
+    if isinstance(e, ast.BoolOp):
+        ts = [_const_truth(v) for v in e.values]
+        if isinstance(e.op, ast.Or):
+            if any(t is True for t in ts):
+                return True
+            if all(t is False for t in ts):
+                return False
+        else:
+            if any(t is False for t in ts):
+                return False
+            if all(t is True for t in ts):
+                return True
     return None
 
 
